@@ -297,6 +297,17 @@ def _elem_kind(ctx, f, e):
         if isinstance(v, ast.Attribute) and v.attr == "trial_id":
             return "?"
         return "?"
+    if isinstance(e, ast.BinOp):
+        # set algebra: the elements are those of the left operand (a keys view: the keys of the dict)
+        l = e.left
+        if isinstance(l, ast.Call) and isinstance(l.func, ast.Attribute) and l.func.attr == "keys" and isinstance(l.func.value, ast.Name):
+            for d in local_defs(f, l.func.value.id):
+                if isinstance(d, ast.DictComp):
+                    return of_value(f, d.key)
+                if isinstance(d, ast.Dict) and d.keys and d.keys[0] is not None:
+                    return of_value(f, d.keys[0])
+            return "?"
+        return _elem_kind(ctx, f, l)
     base = e
     while isinstance(base, ast.Subscript):
         base = base.value
@@ -333,6 +344,12 @@ def _elem_kind(ctx, f, e):
 def _is_set_expr(ctx, f, e):
     if isinstance(e, (ast.Set, ast.SetComp)):
         return True
+    # set algebra: keys-view / set combined with -, &, |, ^ gives a set
+    if isinstance(e, ast.BinOp) and isinstance(e.op, (ast.Sub, ast.BitAnd, ast.BitOr, ast.BitXor)):
+        def setty(x):
+            return _is_set_expr(ctx, f, x) or (isinstance(x, ast.Call) and isinstance(x.func, ast.Attribute) and x.func.attr in ("keys", "items"))
+        if setty(e.left) or (setty(e.right) and isinstance(e.op, (ast.BitAnd, ast.BitOr, ast.BitXor))):
+            return True
     if isinstance(e, ast.Call) and isinstance(e.func, ast.Name) and e.func.id in ("set", "frozenset"):
         return True
     t = ctx.R.infer(f, e)
